@@ -83,7 +83,7 @@ def execute(G, c):
 
     call = ("get", "1.3.6.1.2.1.1.1.0") if c["op"] == "get" else ("get_many", ["1.3.6.1.2.1.1.1.0", "1.3.6.1.2.1.1.3.0"])
     calls = ([("get", "1.3.6.1.2.1.1.1.0")] if warm else []) + [call]
-    outs = drivers.run_calls(G, c["driver"], cfg, calls, handler, timeout=0.12 if c["kind"] == "silent" else 2.0)
+    outs = drivers.run_calls(G, c["driver"], cfg, calls, handler, timeout=0.12 if c["kind"] == "silent" else 5.0)
     if warm and not (outs[0].kind == "ok" and outs[0].value == 1):
         raise core.Failure("warmup-exchange-failed", "plain get before the tested call gave %r over %s" % (outs[0], cfg.describe()))
     out = outs[-1]
